@@ -190,6 +190,15 @@ T.update({
  'C20_h': dict(change='DecomposeNAF fold threshold from a table whose w = 6 entry is 46 instead of 64', needs='window width 6 (unused by the library), odd window value 47..63', strengthened='no'),
 })
 
+T.update({
+ 'C03_i': dict(change='VerifyHashed compares x1 with (r - e) mod n without reducing x1', needs='verification point with affine x in [n, p-1] (2^-128): valid signature rejected', strengthened='YES: the symbolic obligation reported reject-valid but no solved family reproduced it; a family that picks R with x >= n first and solves the key from R = [s]G + [t]P added'),
+ 'C12_i': dict(change='ConstantTimeCmp never compares the least significant byte', needs='operands agreeing in their first 31 bytes: n-2 rejected as a key, x = p accepted as a coordinate', strengthened='no'),
+ 'C13_i': dict(change='zBytes gets spare capacity and ZA hashes append(append(zBytes, x...), y...)', needs='concurrent ZA/Sign/Verify calls for different keys overwrite each other in the shared backing array', strengthened='YES: C13 compared the hashed byte sequence only; the ZA obligation now also requires that the call stores into no object that existed before it (package-level state, arguments), replay runs ZA from 8 goroutines against the serial results'),
+ 'C14_i': dict(change='DecomposeNAF fast-forwards over an all-zero aligned 32-bit word without delivering a pending carry', needs='scalar s with a recoding carry arriving at a zero word (2^-30)', strengthened='YES: the recoding is a contract inside C14 (C20 owns it) and the replay scalars were random or tiny; carry-into-zero-word patterns at every word position added'),
+ 'C16_i': dict(change='field sm2Square: limb-2 trial subtraction rewritten as add-one, borrow wrong when the limb is all ones with a borrow in', needs='Montgomery result p - d with a borrow from the low 128 bits (2^-64)', strengthened='YES: field.Square failed symbolically but the carry-critical vectors did not reproduce it; operands are now solved (division / square root) so that Mul and Square results land on m - d for d up to 64, on limb boundaries and on 0/1'),
+ 'C19_i': dict(change='GenerateKey substitutes crypto/rand.Reader for a nil source', needs='GenerateKey(nil) returns a key and no error', strengthened='no'),
+})
+
 for name, t in sorted(T.items()):
     d = os.path.join(S, name)
     if not os.path.isdir(d):
@@ -199,7 +208,7 @@ for name, t in sorted(T.items()):
     detected = any(l.startswith('VIOLATION') for l in res)
     key = next((l.strip() for l in res if l.strip().startswith('key=')), '')
     meta = dict(
-        seed=name, property=prop, origin='fresh sub-agent given only the property text and a scratch worktree of /repo' + (' (asked for a change in the arm64 implementation; demonstration by a Go port of the changed logic, since arm64 code cannot run on this host)' if name.endswith('_d') else '') + (' (fifth/sixth round: one sub-agent handled four properties in turn, each in its own worktree)' if name.endswith(('_f', '_g')) else '') + (' (seventh round: one sub-agent handled two properties in turn, each in its own worktree)' if name.endswith('_h') else ''),
+        seed=name, property=prop, origin='fresh sub-agent given only the property text and a scratch worktree of /repo' + (' (asked for a change in the arm64 implementation; demonstration by a Go port of the changed logic, since arm64 code cannot run on this host)' if name.endswith('_d') else '') + (' (fifth/sixth round: one sub-agent handled four properties in turn, each in its own worktree)' if name.endswith(('_f', '_g')) else '') + (' (seventh/eighth round: one sub-agent handled two properties in turn, each in its own worktree)' if name.endswith(('_h', '_i')) else ''),
         change=t['change'], needs_to_manifest=t['needs'],
         compiles=True, existing_suite_passes=True,
         confirmed_by_me='applied patch.diff in a scratch worktree: go build ./... and go test -vet=off -count=1 ./... pass; demo_test.go fails with the change and passes without it (C08/C09/C11: structural demonstration, see meta.txt)',
